@@ -33,6 +33,7 @@ pub fn choose_layout(ch: &mut Chooser) -> Layout {
         extra_fat_sectors: ch.pick("cfb.extra-fat", &[0usize, 1]),
         free_mini_sectors: ch.pick("cfb.free-mini", &[0usize, 1]),
         name_garbage: ch.flag("cfb.stale-bytes-after-name-terminator"),
+        size_hi_garbage: ch.flag("cfb.v3-junk-in-upper-half-of-size-field"),
     }
 }
 
